@@ -149,8 +149,10 @@ SPECS = {
 
  "C06": {
   "level": "exploration",
-  "passes": [fsm("^TestC06$"), real("^TestRealTimers$"), real("^TestRealTimers$", name="realtcp-legacy-timers", env={"GODEBUG": "asynctimerchan=1"}, thorough_only=True)],
-  "rule": "[thorough also repeats pass realtcp with GODEBUG=asynctimerchan=1: the pre-Go-1.23 timer channel semantics a user with an old go.mod gets, which the virtual engine cannot run] [also pass realtcp: hold-timer lower bound (3 s) and refused-dial pacing (200 ms) in real time] family grid: local hold x remote hold over {0,3,4,9,10,30,90,65535}^2 x remote traffic {silent, KEEPALIVE-only at H-10ms, UPDATE-only at H-10ms, mixed random intervals < H, silent in OpenConfirm} x direction, with local WriteUpdate patterns "
+  "passes": [fsm("^TestC06$"), real("^TestReal(Timers|SlowHandler)$"),
+             real("^TestRealSlowHandler$", name="realtcp-legacy-slow", env={"GODEBUG": "asynctimerchan=1"}),
+             real("^TestRealTimers$", name="realtcp-legacy-timers", env={"GODEBUG": "asynctimerchan=1"}, thorough_only=True)],
+  "rule": "[pass realtcp-legacy-slow, every run: an update handler busy for 3.3 s under a 3 s hold time while the remote sends a KEEPALIVE every 600 ms, with the pre-Go-1.23 timer channels (GODEBUG=asynctimerchan=1): no Hold Timer Expired, both UPDATEs delivered; judged only when a scheduling-gap monitor shows the machine was not stalled] [thorough also repeats pass realtcp with GODEBUG=asynctimerchan=1: the pre-Go-1.23 timer channel semantics a user with an old go.mod gets, which the virtual engine cannot run] [also pass realtcp: hold-timer lower bound (3 s) and refused-dial pacing (200 ms) in real time] family grid: local hold x remote hold over {0,3,4,9,10,30,90,65535}^2 x remote traffic {silent, KEEPALIVE-only at H-10ms, UPDATE-only at H-10ms, mixed random intervals < H, silent in OpenConfirm} x direction, with local WriteUpdate patterns "
           "{none, burst, periodic at H/3-10ms} rotated over the cells (640 sessions, enumerated every run); family multi: worlds of 1-3 consecutive sessions on one peer with independently drawn remote hold times/traffic (the outbound FSM object is reused, "
           "so stale timer state of an earlier session is exercised; thorough adds random hold values 3..65535). All oracles are arithmetic on virtual timestamps taken at the remote (send time of its last message, arrival of corebgp's messages): "
           "OPEN hold field = configured; expiry NOTIFICATION(4) never before last-remote-message + min(local,remote) and not later than that + 5 ms; no teardown while the remote sends every H-10ms; gaps between consecutive messages from corebgp <= H/3 + 5 ms; "
@@ -184,13 +186,13 @@ SPECS = {
 
  "C11": {
   "level": "fault_enumeration",
-  "passes": [fsm("^TestC11$")],
-  "rule": "family strings: every fault string of length <= 3 (quick) / <= 5 (thorough) over the 12-symbol alphabet {refuse, stall, collide (the remote establishes an inbound session and closes corebgp's OpenSent connection at the same instant, later drops the session), close|reset|cease @ OpenSent|OpenConfirm|Established} (exhaustive), each applied to the successive outbound attempts of an active peer "
+  "passes": [fsm("^TestC11$"), real("^TestRealReconnect$")],
+  "rule": "[also pass realtcp: outbound sessions over the real dialer, IPv4 and IPv6, with and without a configured local address (source binding), and refused-dial pacing; a connection that never arrives is a violation only when a control connection to the same listener succeeds at once after 20 s = 400 x idle-hold] family strings: every fault string of length <= 3 (quick) / <= 5 (thorough) over the 12-symbol alphabet {refuse, stall, collide (the remote establishes an inbound session and closes corebgp's OpenSent connection at the same instant, later drops the session), close|reset|cease @ OpenSent|OpenConfirm|Established} (exhaustive), each applied to the successive outbound attempts of an active peer "
           "(or to successive inbound connections of a passive one) with (idle-hold, connect-retry) drawn from {(5s,5s),(1s,30s),(30s,1s),(100ms,100ms)}, followed by a well-behaved remote; family long: random strings of length 4-6 (3000 quick, 300000 thorough); family inbound-end: an inbound Established session of an active peer ends "
           "by close/reset/Cease; family realdial: real refused loopback dials inside the bubble observed through WithDialerControl. Oracle on the dial log (virtual timestamps from the dial hook / DialerControl): refused attempt followed by the next after idle-hold (never earlier than idle-hold-5ms, never later than idle-hold+connect-retry), "
           "stalled attempt cancelled and replaced within connect-retry, new attempt within idle-hold+connect-retry after any other fault, Established within idle-hold+connect-retry+1s of the last fault (liveness restated as bounded progress), passive peers never dial, dialling resumes <= 5 ms after an inbound session ends and a new inbound connection is served.",
   "exhaustive_note": "all fault strings up to the stated length are enumerated on every run",
-  "assumptions": ENGINE_V + ["unbounded 'keeps trying' is decided only as bounded progress for fault strings up to the stated length"],
+  "assumptions": ENGINE_V + ENGINE_R + ["unbounded 'keeps trying' is decided only as bounded progress for fault strings up to the stated length"],
  },
 
  "C13": {
